@@ -79,6 +79,83 @@ theorem newUnpackInfo_unsupported (fs : FS) (dst : Str) (e : Entry) (h : e.suppo
   | none => rfl
   | some p => have := (newUnpackInfo_some hn).2; simp [h] at this
 
+/-! ## the link test of `Unpack` -/
+
+/-- what `Unpack` accepts, `validSymlink` accepts -/
+theorem unpackLinkOK_valid {cwd : Str} {allow : List Str} {dst ln t : Str}
+    (h : unpackLinkOK cwd allow dst ln t = true) : validSymlink cwd allow dst ln t = true := by
+  unfold unpackLinkOK at h
+  exact (Bool.and_eq_true _ _ ▸ h).1
+
+/-- … and the target is relative or allow-listed -/
+theorem unpackLinkOK_rel_or_allowed {cwd : Str} {allow : List Str} {dst ln t : Str}
+    (h : unpackLinkOK cwd allow dst ln t = true) :
+    isAbs t = false ∨ allowedTarget allow (pathAbs cwd dst) (pathClean t) = true := by
+  unfold unpackLinkOK at h
+  have h2 := (Bool.and_eq_true _ _ ▸ h).2
+  cases ha : isAbs t with
+  | false => exact Or.inl rfl
+  | true => right; simpa [ha] using h2
+
+/-- an accepted absolute target is allow-listed -/
+theorem unpackLinkOK_abs_allowed {cwd : Str} {allow : List Str} {dst ln t : Str}
+    (h : unpackLinkOK cwd allow dst ln t = true) (ha : isAbs t = true) :
+    allowedTarget allow (pathAbs cwd dst) (pathClean t) = true := by
+  rcases unpackLinkOK_rel_or_allowed h with h' | h'
+  · rw [ha] at h'; cases h'
+  · exact h'
+
+/-- the empty allow-list allows nothing -/
+theorem allowedTarget_nil (absRoot absTarget : Str) : allowedTarget [] absRoot absTarget = false := rfl
+
+/-- with no allow-list an accepted target is relative -/
+theorem unpackLinkOK_nil_rel {cwd dst ln t : Str} (h : unpackLinkOK cwd [] dst ln t = true) :
+    isAbs t = false := by
+  rcases unpackLinkOK_rel_or_allowed h with h' | h'
+  · exact h'
+  · rw [allowedTarget_nil] at h'; cases h'
+
+/-- with no allow-list an absolute target is refused -/
+theorem unpackLinkOK_nil_abs (cwd dst ln : Str) {t : Str} (ha : isAbs t = true) :
+    unpackLinkOK cwd [] dst ln t = false := by
+  cases h : unpackLinkOK cwd [] dst ln t with
+  | false => rfl
+  | true => rw [unpackLinkOK_nil_rel h] at ha; cases ha
+
+/-- the test, taken apart -/
+theorem unpackLinkOK_iff {cwd : Str} {allow : List Str} {dst ln t : Str} :
+    unpackLinkOK cwd allow dst ln t = true ↔
+      validSymlink cwd allow dst ln t = true ∧
+        (isAbs t = false ∨ allowedTarget allow (pathAbs cwd dst) (pathClean t) = true) := by
+  constructor
+  · exact fun h => ⟨unpackLinkOK_valid h, unpackLinkOK_rel_or_allowed h⟩
+  · rintro ⟨h1, h2⟩
+    unfold unpackLinkOK
+    rw [h1]
+    rcases h2 with h2 | h2 <;> simp [h2]
+
+/-- a relative target: the test of `Unpack` is `validSymlink` -/
+theorem unpackLinkOK_of_rel (cwd : Str) (allow : List Str) (dst ln : Str) {t : Str} (hr : isAbs t = false) :
+    unpackLinkOK cwd allow dst ln t = validSymlink cwd allow dst ln t := by
+  simp [unpackLinkOK, hr]
+
+/-- why the test fails: `validSymlink` says no, or the target is absolute and not allow-listed -/
+theorem unpackLinkOK_false {cwd : Str} {allow : List Str} {dst ln t : Str}
+    (h : unpackLinkOK cwd allow dst ln t = false) :
+    validSymlink cwd allow dst ln t = false ∨
+      (isAbs t = true ∧ allowedTarget allow (pathAbs cwd dst) (pathClean t) = false) := by
+  cases hv : validSymlink cwd allow dst ln t with
+  | false => exact Or.inl rfl
+  | true =>
+    right
+    cases ha : isAbs t with
+    | false => rw [unpackLinkOK_of_rel cwd allow dst ln ha, hv] at h; cases h
+    | true =>
+      refine ⟨rfl, ?_⟩
+      cases hal : allowedTarget allow (pathAbs cwd dst) (pathClean t) with
+      | false => rfl
+      | true => rw [unpackLinkOK_iff.2 ⟨hv, Or.inr hal⟩] at h; cases h
+
 /-! ## one entry -/
 
 section step
@@ -104,9 +181,10 @@ inductive StepOutcome (cwd : Str) (allow : List Str) (dst : Str) (st : UState) (
   | relFail (fs' : FS) : e.isSymlink = true → pathRel dst path = none →
       StepOutcome cwd allow dst st e be path ({ fs := fs', dirs := st.dirs }, some .illegal)
   | linkBad (fs' : FS) (ln : Str) : e.isSymlink = true → pathRel dst path = some ln →
-      validSymlink cwd allow dst ln e.link = false →
+      unpackLinkOK cwd allow dst ln e.link = false →
       StepOutcome cwd allow dst st e be path ({ fs := fs', dirs := st.dirs }, some .illegal)
-  | linkOk (fs' : FS) : e.isSymlink = true →
+  | linkOk (fs' : FS) (ln : Str) : e.isSymlink = true → pathRel dst path = some ln →
+      unpackLinkOK cwd allow dst ln e.link = true →
       StepOutcome cwd allow dst st e be path ({ fs := fs', dirs := st.dirs }, none)
   | dirOk (fs' : FS) : e.isSymlink = false → e.isDir = true →
       StepOutcome cwd allow dst st e be path ({ fs := fs', dirs := st.dirs ++ [(path, e.mode, e.mtime)] }, none)
@@ -131,13 +209,13 @@ theorem unpackEntry_outcome (st : UState) (e : Entry) (body : Str) (be : Bool) (
       | none => exact .relFail _ hs hr
       | some ln =>
         simp only []
-        cases hv : validSymlink cwd allow dst ln e.link with
+        cases hv : unpackLinkOK cwd allow dst ln e.link with
         | false => exact .linkBad _ ln hs hr hv
         | true =>
           simp only [Bool.not_true, Bool.false_eq_true, if_false]
           cases FS.symlink fs1 e.link path nowT with
           | error _ => exact .io _
-          | ok fs2 => exact .linkOk _ hs
+          | ok fs2 => exact .linkOk _ ln hs hr hv
     · rw [if_neg hs]
       have hs' : e.isSymlink = false := by simpa using hs
       by_cases hd : e.isDir = true
@@ -242,7 +320,7 @@ theorem unpackEntry_dirs (st st' : UState) (e : Entry) (body : Str) (be : Bool)
       have ho := unpackEntry_outcome cwd allow priv dst st e body be path hn hi
       rw [h] at ho
       cases ho with
-      | linkOk fs' hs =>
+      | linkOk fs' ln hs _ _ =>
         have : ¬ e.isDir = true := fun hd => by simp [Entry.not_symlink_of_dir hd] at hs
         simp [this]
       | dirOk fs' hs hd => simp [hn, hd, hp]
@@ -256,7 +334,7 @@ theorem unpackEntry_illegal_cause (st : UState) (e : Entry) (body : Str) (be : B
     (newUnpackInfo st.fs dst e = none ∨
      (e.isSymlink = true ∧ ∀ path, newUnpackInfo st.fs dst e = some path →
         (pathRel dst path = none ∨
-         ∃ ln, pathRel dst path = some ln ∧ validSymlink cwd allow dst ln e.link = false))) := by
+         ∃ ln, pathRel dst path = some ln ∧ unpackLinkOK cwd allow dst ln e.link = false))) := by
   by_cases hn : e.name = []
   · rw [unpackEntry_nil_name cwd allow priv dst st e body be hn] at h; simp at h
   · refine ⟨hn, ?_⟩
@@ -276,6 +354,43 @@ theorem unpackEntry_illegal_cause (st : UState) (e : Entry) (body : Str) (be : B
       | dirOk => simp at h
       | otherOk => simp at h
       | fileOk => simp at h
+
+/-- a named symlink entry that lets the loop continue passed the link test of `Unpack`, with the
+link name `filepath.Rel(dst, path)` of its extraction path -/
+theorem unpackEntry_link_accepted (st st' : UState) (e : Entry) (body : Str) (be : Bool)
+    (hn : e.name ≠ []) (hs : e.isSymlink = true)
+    (h : unpackEntry cwd allow priv dst st e body be = (st', none)) :
+    ∃ ln, newUnpackInfo st.fs dst e = some (entryPath dst e) ∧
+      pathRel dst (entryPath dst e) = some ln ∧ unpackLinkOK cwd allow dst ln e.link = true := by
+  cases hi : newUnpackInfo st.fs dst e with
+  | none => rw [unpackEntry_info_none cwd allow priv dst st e body be hn hi] at h; cases h
+  | some path =>
+    have hp := (newUnpackInfo_some hi).1
+    have ho := unpackEntry_outcome cwd allow priv dst st e body be path hn hi
+    rw [h] at ho
+    subst hp
+    cases ho with
+    | linkOk fs' ln _ hr hv => exact ⟨ln, rfl, hr, hv⟩
+    | dirOk fs' hs' _ => rw [hs] at hs'; cases hs'
+    | otherOk fs' hs' _ _ => rw [hs] at hs'; cases hs'
+    | fileOk fs' hs' _ _ _ => rw [hs] at hs'; cases hs'
+
+/-- a named symlink entry whose link test fails never lets the loop continue: the step is an
+error (illegal slug, or an earlier I/O error of `MkdirAll`) -/
+theorem unpackEntry_link_refused (st : UState) (e : Entry) (body : Str) (be : Bool)
+    (hn : e.name ≠ []) (hs : e.isSymlink = true)
+    (hv : ∀ ln, pathRel dst (entryPath dst e) = some ln → unpackLinkOK cwd allow dst ln e.link = false) :
+    (unpackEntry cwd allow priv dst st e body be).2 = some .illegal ∨
+      (unpackEntry cwd allow priv dst st e body be).2 = some .ioerr := by
+  rcases hu : unpackEntry cwd allow priv dst st e body be with ⟨st', _ | r⟩
+  · obtain ⟨ln, _, hr, hok⟩ := unpackEntry_link_accepted cwd allow priv dst st st' e body be hn hs hu
+    rw [hv ln hr] at hok; cases hok
+  · have hne := unpackEntry_ne_ok cwd allow priv dst st e body be
+    rw [hu] at hne
+    cases r with
+    | ok => exact absurd rfl hne
+    | illegal => exact Or.inl rfl
+    | ioerr => exact Or.inr rfl
 
 /-! ## `restoreDirs` -/
 
@@ -530,6 +645,26 @@ theorem unpackLoop_none_supported (fault : Fault) (idx : Nat) (st st' : UState) 
                 (newUnpackInfo_unsupported st.fs dst e hs)] at hu
               cases hu
         · exact ih _ _ h e he
+      · rw [unpackLoop_cons_some cwd allow priv dst rest hf hu] at h; cases h
+
+/-- a loop that runs to the end accepted the target of every named symlink entry -/
+theorem unpackLoop_none_links (fault : Fault) (idx : Nat) (st st' : UState) (es : List Entry)
+    (h : unpackLoop cwd allow priv dst fault idx st es = (st', none)) :
+    ∀ e ∈ es, e.name ≠ [] → e.isSymlink = true →
+      ∃ ln, pathRel dst (entryPath dst e) = some ln ∧ unpackLinkOK cwd allow dst ln e.link = true := by
+  induction es generalizing idx st with
+  | nil => intro e he; cases he
+  | cons x rest ih =>
+    by_cases hf : fault = .header idx
+    · subst hf; rw [unpackLoop_cons_header] at h; cases h
+    · rcases hu : unpackEntry cwd allow priv dst st x (faultBody fault idx x).1 (faultBody fault idx x).2
+        with ⟨st1, _ | r1⟩
+      · rw [unpackLoop_cons_none cwd allow priv dst rest hf hu] at h
+        intro e he hn hs
+        rcases List.mem_cons.1 he with rfl | he
+        · obtain ⟨ln, _, hr, hv⟩ := unpackEntry_link_accepted cwd allow priv dst st st1 e _ _ hn hs hu
+          exact ⟨ln, hr, hv⟩
+        · exact ih _ _ h e he hn hs
       · rw [unpackLoop_cons_some cwd allow priv dst rest hf hu] at h; cases h
 
 /-- an illegal-slug result of the fault-free loop comes from one entry, examined in the state the
